@@ -291,7 +291,34 @@ def r4(ctx):
     ctx.floor(R, 9)
 
 
+def r5(ctx):
+    R = "C11-R5"
+    ctx.rule(R, "run and step agree: Sim::run is `loop { if step()? { return Ok } }` - the loop is left only on what Sim::step returned (its Err, or "
+                "Ok(true)); a second condition on the loop (elapsed <= duration) makes run report a timeout without stepping when it is entered "
+                "after the duration has passed although every client finished Ok and step reports Ok(true)")
+    b = ctx.body(R, "turmoil::sim::Sim::run")
+    if not b:
+        return
+    STEP = "call:turmoil::sim::Sim::step"
+    n = 0
+    for comp in loops(b):
+        if not any(bb in comp for bb, t in b.calls("turmoil::sim::Sim::step")):
+            continue
+        n += 1
+        bad = []
+        for u, v in loop_exits(b, comp):
+            at = Slicer(ctx.w).atoms(b, b.term(u)["d"]) if b.term(u)["k"] == "switch" else set()
+            if STEP not in at:
+                bad.append(b.term(u).get("s", b.span))
+        ctx.inst(R, "run:loop-left-only-on-step-verdict", not bad, bad[0] if bad else b.span, "the run loop ends only on step's Err or Ok(true)" if not bad else
+                 "Sim::run's loop has an exit that does not depend on what Sim::step returned (a bound on elapsed / steps): entered with the clock already past the duration, "
+                 "run returns the timeout error without stepping although all clients finished Ok - run and step disagree on the same Sim")
+    ctx.inst(R, "run:loop-found", n == 1, b.span, "one step loop in Sim::run" if n == 1 else f"{n} loops calling Sim::step found in Sim::run: re-derive")
+    ctx.floor(R, 2)
+
+
 def run(ctx):
+    r5(ctx)
     r1(ctx)
     r2(ctx)
     r3(ctx)
